@@ -26,6 +26,18 @@ def guard_dependencies(fn: ast.AST, w: channels.Write) -> Tuple[Optional[ast.If]
             guard = p
             break
         p = getattr(p, "_parent", None)
+    if guard is None:
+        # guard-clause form: an earlier `if <cell is set and fits>: ...; return` in the same block
+        stmt = node
+        while getattr(stmt, "_parent", None) is not None and not isinstance(getattr(stmt, "_parent"), (ast.FunctionDef, ast.If, ast.For, ast.While, ast.With, ast.Try)):
+            stmt = stmt._parent  # type: ignore[attr-defined]
+        parent = getattr(stmt, "_parent", None)
+        sibs = getattr(parent, "body", []) if parent is not None else []
+        for st in sibs:
+            if st is stmt:
+                break
+            if isinstance(st, ast.If) and not st.orelse and st.body and isinstance(st.body[-1], (ast.Return, ast.Raise)):
+                guard = st
     params = {a.arg for a in fn.args.args + fn.args.kwonlyargs} - {"self", "cls"}
     deps: Set[str] = set()
     if w.value is not None:
@@ -91,38 +103,63 @@ def fresh_receiver(fn: ast.FunctionDef, call: ast.Call, classes: Set[str]) -> Tu
         return is_fresh(root, classes), f"receiver {ast.unparse(recv)}"
     if root_txt == "self":
         return True, "the container's own method"  # NameContainer/Activation internals operating on self
-    # all assignments to root in this function
-    assigns = []
-    for n in channels.own_nodes(fn):
-        if isinstance(n, (ast.Assign, ast.AnnAssign)) and getattr(n, "value", None) is not None:
-            tg = n.targets if isinstance(n, ast.Assign) else [n.target]
-            for t in tg:
-                if dotted(t) == root_txt:
-                    assigns.append(n)
-    before = [a for a in assigns if a.lineno < call.lineno]
-    if not before:
-        return False, f"`{root_txt}` is not created in this call: bindings are loaded into an object that outlives the call"
-    stale = [a for a in before if not is_fresh(a.value, classes)]
+    # values `root` can hold when control reaches the call: a walk over the statements that forks at branches and
+    # stops at return / raise (so an early `self.x = kept; return` arm does not reach the call)
+    at_call: List[Optional[ast.expr]] = []
+
+    def contains(st: ast.AST) -> bool:
+        return any(n is call for n in ast.walk(st))
+
+    def block(stmts, cur: List[Optional[ast.expr]]) -> Optional[List[Optional[ast.expr]]]:
+        """values at the end of the block, or None if every path left the function"""
+        for st in stmts:
+            if isinstance(st, (ast.Assign, ast.AnnAssign)) and getattr(st, "value", None) is not None:
+                if contains(st):
+                    at_call.extend(cur)
+                tg = st.targets if isinstance(st, ast.Assign) else [st.target]
+                if any(dotted(t) == root_txt for t in tg):
+                    cur = [st.value]
+                continue
+            if isinstance(st, ast.If):
+                if contains(st.test):
+                    at_call.extend(cur)
+                a = block(st.body, list(cur))
+                b = block(st.orelse, list(cur))
+                if a is None and b is None:
+                    return None
+                cur = (a or []) + (b or [])
+                continue
+            if isinstance(st, (ast.Return, ast.Raise)):
+                if contains(st):
+                    at_call.extend(cur)
+                return None
+            if isinstance(st, (ast.For, ast.While, ast.With, ast.Try)):
+                inner = []
+                for field in ("body", "orelse", "finalbody"):
+                    sub = getattr(st, field, None)
+                    if sub:
+                        r = block(sub, list(cur))
+                        if r is not None:
+                            inner += r
+                for h in getattr(st, "handlers", []):
+                    r = block(h.body, list(cur))
+                    if r is not None:
+                        inner += r
+                cur = cur + inner if isinstance(st, (ast.For, ast.While, ast.Try)) else (inner or cur)
+                continue
+            if contains(st):
+                at_call.extend(cur)
+        return cur
+
+    block(fn.body, [None])
+    if not at_call:
+        return False, f"the load into `{root_txt}` was not reached by the statement walk"
+    if any(v is None for v in at_call):
+        return False, f"`{root_txt}` is not created in this call on some path: bindings are loaded into an object that outlives the call"
+    stale = [v for v in at_call if not is_fresh(v, classes)]
     if stale:
-        return False, f"`{root_txt}` may be `{ast.unparse(stale[0].value)[:60]}` (not a fresh clone) when bindings are loaded into it"
-    # every fresh assignment must dominate the call: it must not sit under a condition that the call is not under
-    def cond_chain(n: ast.AST) -> List[ast.AST]:
-        out = []
-        p = getattr(n, "_parent", None)
-        while p is not None and p is not fn:
-            if isinstance(p, (ast.If, ast.For, ast.While, ast.Try)):
-                out.append(p)
-            p = getattr(p, "_parent", None)
-        return out
-    call_conds = cond_chain(call)
-    ok_dom = False
-    for a in before:
-        ac = cond_chain(a)
-        if all(c in call_conds for c in ac):
-            ok_dom = True
-    if not ok_dom:
-        return False, f"the fresh clone assigned to `{root_txt}` does not dominate the load (assigned only under a condition)"
-    return True, f"`{root_txt}` is a fresh clone/constructor result on every path"
+        return False, f"`{root_txt}` may be `{ast.unparse(stale[0])[:60]}` (not a fresh clone) when bindings are loaded into it"
+    return True, f"`{root_txt}` is a fresh clone/constructor result on every path that reaches the load"
 
 
 def assigns_on_all_paths(cls: ast.ClassDef, fn: ast.FunctionDef, field: str, depth: int = 0) -> bool:
